@@ -72,6 +72,9 @@ type wRow struct {
 	Signers   []string `json:"signers"`
 	Ctx       []string `json:"ctx"`
 	Due       bool     `json:"due"`
+	Mbv       []uint64 `json:"mbv"` // commitDpos: epoch length, two 16-bit limbs
+	Vhv       []uint64 `json:"vhv"` // height at which the current epoch began
+	Hv        []uint64 `json:"hv"`  // height of the call
 	Expect    string   `json:"expect"`
 	Witnessed bool     `json:"witnessed"`
 }
@@ -100,18 +103,21 @@ type wWorld struct {
 
 func pkHex(a *account.Account) string { return vconfig.PubkeyID(a.PublicKey) }
 
-func newWWorld() *wWorld {
+func newWWorld() *wWorld { return newWWorldAt(wBaseHeight, 100000) }
+
+// newWWorldAt: the world's epoch begins at initHeight (governanceView.Height) and lasts maxBlockChangeView blocks.
+func newWWorldAt(initHeight uint32, maxBlockChangeView uint32) *wWorld {
 	w := &wWorld{sb: getSandbox(), vals: detAccounts("polyval", 4), owner: detAccount("owner"), stranger: detAccount("stranger"), extra: detAccount("peer5")}
-	w.sb.Height = wBaseHeight
+	w.sb.Height = initHeight
 	w.op = nativekit.Operator(w.vals)
-	cfg := &config.VBFTConfig{BlockMsgDelay: 10000, HashMsgDelay: 10000, PeerHandshakeTimeout: 10, MaxBlockChangeView: 100000,
+	cfg := &config.VBFTConfig{BlockMsgDelay: 10000, HashMsgDelay: 10000, PeerHandshakeTimeout: 10, MaxBlockChangeView: maxBlockChangeView,
 		VrfValue: hex.EncodeToString(newDet("vrfv").Bytes(64)), VrfProof: hex.EncodeToString(newDet("vrfp").Bytes(64))}
 	for i, v := range w.vals {
 		cfg.Peers = append(cfg.Peers, &config.VBFTPeerInfo{Index: uint32(i + 1), PeerPubkey: pkHex(v), Address: v.Address.ToBase58()})
 	}
 	in := sinkBytes(func(s *common.ZeroCopySink) { cfg.Serialization(s) })
 	w.must(nm.InitConfig, nil, in)
-	w.sb.Height = wBaseHeight + 10
+	w.sb.Height = initHeight + 10
 	return w
 }
 
@@ -399,15 +405,21 @@ func runWitnessRow(i int, row *wRow, ms map[string]*wMethod) wResult {
 	if !ok {
 		vio.Fatal("driver has no method %q", row.M)
 	}
-	w := newWWorld()
+	limbs := func(x []uint64) uint32 { return uint32(x[0]*65536 + x[1]) }
+	var w *wWorld
+	if row.M == "nm.commitDpos" {
+		w = newWWorldAt(limbs(row.Vhv), limbs(row.Mbv))
+	} else {
+		w = newWWorld()
+	}
 	defer putSandbox(w.sb)
 	var named common.Address
 	if row.Named != "-" {
 		named = w.addr(row.Named)
 	}
 	args := m.prepare(w, named)
-	if row.Due {
-		w.sb.Height = wBaseHeight + 200000 // the epoch is over: MaxBlockChangeView = 100000
+	if row.M == "nm.commitDpos" {
+		w.sb.Height = limbs(row.Hv)
 	}
 	tx := w.buildTx(m, args, row, uint32(i))
 	addrs, err := tx.GetSignatureAddresses()
